@@ -2,7 +2,10 @@ package c20
 
 import (
 	"fmt"
+	"os"
+	"path/filepath"
 	"regexp"
+	"runtime/debug"
 	"sort"
 	"strings"
 	"testing"
@@ -15,8 +18,13 @@ import (
 )
 
 func TestMain(m *testing.M) {
+	// the cases are small and run one after the other: on a busy machine most of the process's CPU time went into the
+	// garbage collector's background workers (a collection every few cases). The setting changes no verdict.
+	if os.Getenv("GOGC") == "" {
+		debug.SetGCPercent(800)
+	}
 	document.SetGlobalLevel(document.LogLevelSilent)
-	kit.TestMain(m, 12000, 300000)
+	kit.TestMain(m, 8000, 200000)
 }
 
 // ---------------------------------------------------------------------------------------------
@@ -28,6 +36,10 @@ type Run struct {
 	I bool   `json:"i,omitempty"` // italic
 	S bool   `json:"s,omitempty"` // strike
 	C bool   `json:"c,omitempty"` // code font
+	// foreign writer only: formats the run does NOT have, written with an explicit "off" value; the text cut after
+	// Split runes into two w:r / two w:t
+	Off   int `json:"off,omitempty"`
+	Split int `json:"split,omitempty"`
 }
 
 func (r Run) mask() int {
@@ -55,6 +67,13 @@ type Block struct {
 	Runs    []Run      `json:"runs,omitempty"`    // p
 	Cells   [][]string `json:"cells,omitempty"`   // table (rectangular)
 	HdrBold bool       `json:"hdrbold,omitempty"` // table: first row bold (a header row as Markdown can express it)
+	Brk     bool       `json:"brk,omitempty"`     // empty: a page break paragraph (AddPageBreak)
+	// foreign writer only
+	Off     int  `json:"off,omitempty"`     // h, li, q, code: explicit "off" values on the run
+	Split   int  `json:"split,omitempty"`   // h, li, q, code: the text cut into two runs
+	Sect    bool `json:"sect,omitempty"`    // the paragraph ends a section (w:sectPr in its w:pPr)
+	MarkFmt int  `json:"markfmt,omitempty"` // formatting of the paragraph mark (w:pPr/w:rPr): not a format of any text
+	NoNum   bool `json:"nonum,omitempty"`   // p: w:numPr with w:numId 0 ("no numbering")
 }
 
 type Opts struct {
@@ -69,7 +88,10 @@ type Opts struct {
 
 // Step is an export made between the judged exports of a case (its output is not judged): the history dimension.
 type Step struct {
-	K string `json:"k"`           // hq: HighQualityExportOptions(); mutdefault: the struct DefaultExportOptions() returned, customised with O; struct: own struct with O; nilexp: NewExporter(nil), nil options
+	// hq: HighQualityExportOptions(); mutdefault: the struct DefaultExportOptions() returned, customised with O; struct: own struct with O;
+	// nilexp: NewExporter(nil), nil options; literal: struct literal with O; otherdoc: the case's second document through the judged
+	// exporter and options (file sinks: into the same .md file); badfile: ExportToFile of a file that does not exist
+	K string `json:"k"`
 	O Opts   `json:"o,omitempty"` // mutdefault, struct
 }
 
@@ -81,8 +103,11 @@ type Case struct {
 	// Via: how the requested options reach the exporter. "" = a struct of the caller's own (a value copy of the
 	// defaults with O set); "default" = DefaultExportOptions() as returned; "nilexp" = NewExporter(nil) and nil
 	// options; "hq" = HighQualityExportOptions(). For the last three O holds the documented values.
+	// "ctor" = the caller's struct given to NewExporter, nil options per call; "ctor2" = NewExporter(HighQualityExportOptions())
+	// and the caller's struct per call; "literal" = a struct literal of the caller (no copy of the defaults).
 	Via  string `json:"via,omitempty"`
 	Hist []Step `json:"hist,omitempty"` // exports with other options between the first export and the repeats
+	W    *Wide  `json:"w,omitempty"`    // entry point, origin of the document, shared objects (wide.go); nil = ExportToString of the in-memory document
 }
 
 // documented defaults (DefaultExportOptions) and what HighQualityExportOptions changes of the fields that shape the output
@@ -120,6 +145,14 @@ func (b Block) text() string {
 		return ""
 	}
 	return b.T
+}
+
+// codeLang: the DefaultCodeLang of the judged exports (set only in the caller's own options struct).
+func (c Case) codeLang() string {
+	if x := c.wide().X; x != nil && (c.Via == "" || c.Via == "literal" || c.Via == "ctor" || c.Via == "ctor2") {
+		return x.Lang
+	}
+	return ""
 }
 
 func blank(s string) bool { return strings.TrimSpace(s) == "" }
@@ -173,7 +206,11 @@ func build(c Case) (*document.Document, error) {
 		case "code":
 			d.AddParagraph(b.T).SetStyle("CodeBlock")
 		case "empty":
-			d.AddParagraph("")
+			if b.Brk {
+				d.AddPageBreak()
+			} else {
+				d.AddParagraph("")
+			}
 		case "table":
 			cfg := &document.TableConfig{Rows: len(b.Cells), Cols: len(b.Cells[0]), Width: 9000, Data: b.Cells}
 			if b.HdrBold {
@@ -209,21 +246,6 @@ func setOpts(e *markdown.ExportOptions, o Opts) *markdown.ExportOptions {
 func exportOpts(o Opts) *markdown.ExportOptions {
 	e := *markdown.DefaultExportOptions()
 	return setOpts(&e, o)
-}
-
-// export performs one export the way the case asks for its options.
-func export(d *document.Document, via string, o Opts) (string, error) {
-	switch via {
-	case "default":
-		return markdown.NewExporter(nil).ExportToString(d, markdown.DefaultExportOptions())
-	case "nilexp":
-		return markdown.NewExporter(nil).ExportToString(d, nil)
-	case "hq":
-		return markdown.NewExporter(nil).ExportToString(d, markdown.HighQualityExportOptions())
-	case "mutdefault": // a caller customising the struct it was handed
-		return markdown.NewExporter(nil).ExportToString(d, setOpts(markdown.DefaultExportOptions(), o))
-	}
-	return markdown.NewExporter(nil).ExportToString(d, exportOpts(o))
 }
 
 // ---------------------------------------------------------------------------------------------
@@ -488,8 +510,12 @@ var reOrderedMarker = regexp.MustCompile(`(?m)^\d+[.)] `)
 func diffSkeleton(c Case, md string) string {
 	var inOrder, text, tables strings.Builder
 	ordered := false
+	lang := skeleton(c.codeLang()) // the info string of every code fence
 	for _, b := range c.Blocks {
 		k := skeleton(b.text())
+		if b.K == "code" && !blank(b.T) {
+			k = lang + k
+		}
 		inOrder.WriteString(k)
 		if b.K == "table" {
 			tables.WriteString(k)
@@ -563,36 +589,14 @@ func diffFormat(want, got []string) string {
 
 // ---------------------------------------------------------------------------------------------
 
-func run(c Case) *kit.Result {
-	res := &kit.Result{}
-	document.VerifResetGlobals()
-	describe(c, res)
-
-	var doc *document.Document
-	var md1 string
-	var err error
-	res.Eval("C20.E0")
-	if p, st := kit.Try(func() { doc, err = build(c) }); p != nil || err != nil || doc == nil {
-		// building through the documented API is a precondition, not the property
-		res.Count("build_failed", 1)
-		res.Label("build-failed")
-		_ = st
-		return res
-	}
-	if p, st := kit.Try(func() { md1, err = export(doc, c.Via, c.O) }); p != nil {
-		res.Fail("C20.E0", "ExportToString panicked: %v [%s]", p, st)
-		return res
-	}
-	if err != nil {
-		res.Fail("C20.E0", "ExportToString failed on a document built through the public API: %v", err)
-		return res
-	}
-
+// judgeMD: clauses E1, E2, E2r and E3 on one exported Markdown text of one document. what names the export in the
+// failure details ("" for the first export of the case's document).
+func judgeMD(c Case, md string, res *kit.Result, what string) {
 	want := expected(c)
-	ref := md1
+	ref := md
 	if c.O.Meta {
 		var ok bool
-		if ref, ok = stripFrontMatter(md1); !ok {
+		if ref, ok = stripFrontMatter(md); !ok {
 			res.Count("meta_without_front_matter", 1)
 		}
 	}
@@ -607,7 +611,7 @@ func run(c Case) *kit.Result {
 			}
 			return diffSeq(w, got) == ""
 		})
-		res.Fail("C20.E1", "%sorder: %s | body: %s | markdown blocks: %s | markdown: %q", tag, d, descrAll(want), descrAll(got), md1)
+		res.Fail("C20.E1", "%s%sorder: %s | body: %s | markdown blocks: %s | markdown: %q", tag, what, d, descrAll(want), descrAll(got), md)
 	}
 	res.Eval("C20.E2")
 	if d := diffUnits(units(want, false), units(got, false)); d != "" {
@@ -618,14 +622,14 @@ func run(c Case) *kit.Result {
 			}
 			return diffUnits(units(w, false), units(got, false)) == ""
 		})
-		res.Fail("C20.E2", "%stext: %s | markdown: %q", tag, d, md1)
+		res.Fail("C20.E2", "%s%stext: %s | markdown: %q", tag, what, d, md)
 	}
 	// E2r: the same demand on the raw string, independent of any Markdown reading and therefore judged on every
 	// case, hostile classes included: delimiters, escapes, markers and fences are punctuation, so the letters and
 	// digits of the Markdown must be exactly the letters and digits of the body's text, block after block.
 	res.Eval("C20.E2r")
 	if d := diffSkeleton(c, ref); d != "" {
-		res.Fail("C20.E2r", "text: %s | markdown: %q", d, md1)
+		res.Fail("C20.E2r", "%stext: %s | markdown: %q", what, d, md)
 	}
 	res.Eval("C20.E3")
 	if d := diffFormat(units(want, true), units(got, true)); d != "" {
@@ -636,27 +640,235 @@ func run(c Case) *kit.Result {
 			}
 			return diffFormat(units(w, true), units(got, true)) == ""
 		})
-		res.Fail("C20.E3", "%sformatting: %s | markdown: %q", tag, d, md1)
+		res.Fail("C20.E3", "%s%sformatting: %s | markdown: %q", tag, what, d, md)
+	}
+}
+
+func histVia(k string) string {
+	if k == "struct" {
+		return ""
+	}
+	return k
+}
+
+func run(c Case) *kit.Result {
+	res := &kit.Result{}
+	document.VerifResetGlobals()
+	describe(c, res)
+	w := c.wide()
+	e := &env{c: c, w: w}
+	defer e.cleanup()
+	entry := map[string]string{"": "ExportToString", "bytes": "ExportToBytes", "file": "ExportToFile", "batch": "BatchExport", "auto": "AutoConvert"}[w.Sink]
+	what := ""
+	if c.W != nil {
+		what = fmt.Sprintf("[%s, document %s] ", entry, map[string]string{"": "built in memory", "saved": "saved and opened again", "foreign": "written by another producer"}[w.Src])
 	}
 
-	// history: exports of the same document with other options, obtained in the ways callers obtain them
-	for i, h := range c.Hist {
-		if p, st := kit.Try(func() { _, _ = export(doc, h.K, h.O) }); p != nil {
-			res.Fail("C20.E0", "export %d of the history (%s) panicked: %v [%s]", i, h.K, p, st)
+	res.Eval("C20.E0")
+	main, err := e.makeTarget(c)
+	if err != nil {
+		if w.Src == "foreign" {
+			res.Fail("C20.E0", "%sthe document cannot be opened: %v", what, err)
 			return res
+		}
+		// building (and saving) through the documented API is a precondition, not the property
+		res.Count("build_failed", 1)
+		res.Label("build-failed")
+		return res
+	}
+	sinkOne := w.Sink // the entry point for single exports
+	if sinkOne == "batch" {
+		sinkOne = "file"
+	}
+
+	// the inputs of a batch
+	var inputs []*target
+	mainAt := 0
+	if w.Sink == "batch" {
+		for i, n := range w.Batch {
+			if i == w.At {
+				inputs = append(inputs, main)
+			}
+			if n <= 0 {
+				p, perr := e.newPath(".docx")
+				if perr != nil {
+					res.Count("build_failed", 1)
+					return res
+				}
+				os.WriteFile(p, []byte("this is not a zip archive"), 0o644)
+				inputs = append(inputs, &target{path: p})
+				continue
+			}
+			cut := c
+			if n < len(c.Blocks) {
+				cut.Blocks = c.Blocks[:n]
+			}
+			t, terr := e.makeTarget(cut)
+			if terr != nil {
+				res.Count("build_failed", 1)
+				res.Label("build-failed")
+				return res
+			}
+			inputs = append(inputs, t)
+		}
+		if w.At >= len(w.Batch) {
+			inputs = append(inputs, main)
+		}
+		for i, t := range inputs {
+			if t == main {
+				mainAt = i
+			}
+		}
+	}
+	exportMain := func(judgeOthers bool) (string, error) {
+		if w.Sink != "batch" {
+			return e.exportVia(w.Sink, main, c.Via, c.O, true)
+		}
+		out, err := e.batch(inputs, c.Via, c.O)
+		if err != nil {
+			return "", err
+		}
+		for i, t := range inputs {
+			if t == main || t.c.Blocks == nil {
+				continue
+			}
+			if judgeOthers {
+				judgeMD(t.c, out[i], res, fmt.Sprintf("%sinput %d of %d (the first %d blocks of the document): ", what, i+1, len(inputs), len(t.c.Blocks)))
+				if e.batchOut == nil {
+					e.batchOut = map[int]string{}
+				}
+				e.batchOut[i] = out[i]
+			} else if out[i] != e.batchOut[i] {
+				res.Fail("C20.E6", "%sstability: input %d of the batch exported again with the same options differs: first %q, again %q", what, i+1, e.batchOut[i], out[i])
+			}
+		}
+		return out[mainAt], nil
+	}
+
+	var md1 string
+	if p, st := kit.Try(func() { md1, err = exportMain(true) }); p != nil {
+		res.Fail("C20.E0", "%s%s panicked: %v [%s]", what, entry, p, st)
+		return res
+	}
+	if err != nil {
+		res.Fail("C20.E0", "%s%s failed on a document of the domain: %v", what, entry, err)
+		return res
+	}
+	judgeMD(c, md1, res, what)
+	want := expected(c)
+	if w.Shared {
+		// the same Exporter, asked again at once: whatever state the first export left in it must not show
+		var again string
+		if p, st := kit.Try(func() { again, err = exportMain(false) }); p != nil {
+			res.Fail("C20.E0", "%srepeated export panicked: %v [%s]", what, p, st)
+			return res
+		}
+		res.Eval("C20.E6")
+		if err != nil {
+			res.Fail("C20.E6", "%srepeated export failed: %v", what, err)
+		} else if again != md1 {
+			res.Fail("C20.E6", "%sstability: the same document exported twice in a row by one Exporter with the same options (obtained via %q) differs: first %q, again %q", what, c.Via, md1, again)
+		}
+	}
+
+	// history: exports of the same document with other options, obtained in the ways callers obtain them; of the
+	// case's second document through the judged exporter; of a file that does not exist
+	var other *target
+	for i, h := range c.Hist {
+		var herr error
+		p, st := kit.Try(func() {
+			switch h.K {
+			case "otherdoc":
+				if other == nil {
+					oc := c
+					oc.Blocks = w.Other
+					if other, herr = e.makeTarget(oc); herr != nil {
+						other = nil
+						return
+					}
+					other.md = main.md // file sinks: the other document goes into the same .md file
+				}
+				_, herr = e.exportVia(sinkOne, other, c.Via, c.O, true)
+			case "badfile":
+				x, arg := e.exporterAndOpts(c.Via, c.O, true)
+				d, derr := e.scratch()
+				if derr != nil {
+					return
+				}
+				mdp := main.md
+				if mdp == "" {
+					mdp = filepath.Join(d, "none.md")
+				}
+				_ = x.ExportToFile(filepath.Join(d, "no-such-file.docx"), mdp, arg)
+			default:
+				_, herr = e.exportVia(sinkOne, main, histVia(h.K), h.O, false)
+			}
+		})
+		if p != nil {
+			res.Fail("C20.E0", "%sexport %d of the history (%s) panicked: %v [%s]", what, i, h.K, p, st)
+			return res
+		}
+		if herr != nil {
+			res.Count("history_export_error", 1)
 		}
 	}
 
 	// round trip through the library's own converter
+	rt := w.RT
+	if w.Sink == "auto" {
+		rt = "auto"
+	}
 	var doc2 *document.Document
-	if p, st := kit.Try(func() { doc2, err = markdown.NewConverter(nil).ConvertString(md1, nil) }); p != nil {
-		res.Fail("C20.E0", "ConvertString(export) panicked: %v [%s]", p, st)
+	t2 := &target{c: c}
+	if p, st := kit.Try(func() {
+		cv := markdown.NewConverter(nil)
+		if w.Conv {
+			cv.ConvertString(otherMD, nil)
+		}
+		switch rt {
+		case "":
+			doc2, err = cv.ConvertString(md1, nil)
+		case "bytes":
+			buf := []byte(md1)
+			doc2, err = cv.ConvertBytes(buf, nil)
+			for i := range buf {
+				buf[i] = '#' // the caller's buffer is the caller's again
+			}
+		default: // file, auto
+			var mdp, dx string
+			if mdp, err = e.newPath(".md"); err != nil {
+				return
+			}
+			if err = os.WriteFile(mdp, []byte(md1), 0o644); err != nil {
+				return
+			}
+			if dx, err = e.newPath(".docx"); err != nil {
+				return
+			}
+			if rt == "auto" {
+				err = markdown.NewBidirectionalConverter(nil, nil).AutoConvert(mdp, dx)
+			} else {
+				err = cv.ConvertFile(mdp, dx, nil)
+			}
+			if err != nil {
+				return
+			}
+			t2.path = dx
+			doc2, err = document.Open(dx)
+		}
+		if w.Conv {
+			cv.ConvertString(otherMD, nil)
+			cv.ConvertString(md1+"\n\nappended *words*\n", nil)
+		}
+	}); p != nil {
+		res.Fail("C20.E0", "%sconverting the exported Markdown back (%q) panicked: %v [%s]", what, rt, p, st)
 		return res
 	}
 	if err != nil || doc2 == nil {
-		res.Fail("C20.E4", "ConvertString rejects the exported Markdown: %v | markdown: %q", err, md1)
+		res.Fail("C20.E4", "%sthe converter (%q) rejects the exported Markdown: %v | markdown: %q", what, rt, err, md1)
 		return res
 	}
+	t2.doc = doc2
 	res.Eval("C20.E4")
 	back := readDoc(doc2)
 	if d := diffSeq(want, back); d != "" {
@@ -667,16 +879,16 @@ func run(c Case) *kit.Result {
 			}
 			return diffSeq(w, back) == ""
 		})
-		res.Fail("C20.E4", "%sround trip: %s | body: %s | re-imported: %s | markdown: %q", tag, d, descrAll(want), descrAll(back), md1)
+		res.Fail("C20.E4", "%s%sround trip: %s | body: %s | re-imported: %s | markdown: %q", tag, what, d, descrAll(want), descrAll(back), md1)
 	}
 	var md2 string
-	if p, st := kit.Try(func() { md2, err = export(doc2, c.Via, c.O) }); p != nil {
-		res.Fail("C20.E0", "second ExportToString panicked: %v [%s]", p, st)
+	if p, st := kit.Try(func() { md2, err = e.exportVia(sinkOne, t2, c.Via, c.O, true) }); p != nil {
+		res.Fail("C20.E0", "%ssecond export panicked: %v [%s]", what, p, st)
 		return res
 	}
 	res.Eval("C20.E5")
 	if err != nil {
-		res.Fail("C20.E5", "second export failed: %v", err)
+		res.Fail("C20.E5", "%ssecond export failed: %v", what, err)
 	} else if md2 != md1 {
 		tag := explain(c, func(e effect) bool { return e.norm5 != nil }, func(sel []effect) bool {
 			a, b, loose := md1, md2, false
@@ -689,20 +901,26 @@ func run(c Case) *kit.Result {
 			}
 			return a == b
 		})
-		res.Fail("C20.E5", "%sfixpoint: export(convert(export(D))) differs from export(D): first %q, second %q", tag, md1, md2)
+		res.Fail("C20.E5", "%s%sfixpoint: export(convert(export(D))) differs from export(D): first %q, second %q", tag, what, md1, md2)
 	}
 	// E6: the same document exported again with the same requested options gives the same bytes, whatever
-	// was exported in between (no mask).
+	// was exported in between (no mask); and what an earlier export returned is still what it returned.
 	var md3 string
-	if p, st := kit.Try(func() { md3, err = export(doc, c.Via, c.O) }); p != nil {
-		res.Fail("C20.E0", "repeated ExportToString panicked: %v [%s]", p, st)
+	if p, st := kit.Try(func() { md3, err = exportMain(false) }); p != nil {
+		res.Fail("C20.E0", "%srepeated export panicked: %v [%s]", what, p, st)
 		return res
 	}
 	res.Eval("C20.E6")
 	if err != nil {
-		res.Fail("C20.E6", "repeated export failed: %v", err)
+		res.Fail("C20.E6", "%srepeated export failed: %v", what, err)
 	} else if md3 != md1 {
-		res.Fail("C20.E6", "stability: the same document exported again with the same options (obtained via %q) after %d other exports differs: first %q, again %q", c.Via, len(c.Hist), md1, md3)
+		res.Fail("C20.E6", "%sstability: the same document exported again with the same options (obtained via %q) after %d other exports differs: first %q, again %q", what, c.Via, len(c.Hist), md1, md3)
+	}
+	for i, b := range e.retained {
+		if string(b) != e.copies[i] {
+			res.Fail("C20.E6", "%sstability: the byte slice export %d returned has changed after later exports: it was %q, it is %q", what, i+1, e.copies[i], string(b))
+			break
+		}
 	}
 	attribute(c, res)
 	return res
@@ -846,7 +1064,210 @@ func describe(c Case, res *kit.Result) {
 	}
 	trig := append(append([]string{}, class...), exact...)
 	res.Nontrivial = between && fmtRuns >= 2 && len(kinds) >= 3
-	res.Shape = strings.Join(shape, "|") + fmt.Sprintf("|%v%v%s%s%v%d%v", o.GFM, o.Setext, o.Bullet, o.Emph, o.Wrap, o.MaxLen, o.Meta) + "|" + strings.Join(trig, ",")
+	res.Shape = strings.Join(shape, "|") + fmt.Sprintf("|%v%v%s%s%v%d%v", o.GFM, o.Setext, o.Bullet, o.Emph, o.Wrap, o.MaxLen, o.Meta) + "|" + strings.Join(trig, ",") + describeWide(c, res)
+}
+
+// describeWide: labels of the widened dimensions (from the content) and their part of the shape.
+func describeWide(c Case, res *kit.Result) string {
+	w := c.wide()
+	sig := ""
+	if c.W != nil {
+		res.Label("wide:any")
+		sink := w.Sink
+		if sink == "" {
+			sink = "string"
+		}
+		res.Label("sink:" + sink)
+		src := w.Src
+		if src == "" {
+			src = "api"
+		}
+		res.Label("src:" + src)
+		if w.fileSink() || w.Src != "" {
+			res.Label("document-read-from-package") // the exported document went through Open / OpenFromMemory
+		}
+		if w.Shared {
+			res.Label("shared-exporter")
+		}
+		if w.RT != "" || w.Sink == "auto" {
+			rt := w.RT
+			if w.Sink == "auto" {
+				rt = "auto"
+			}
+			res.Label("roundtrip:" + rt)
+		}
+		if w.Conv {
+			res.Label("shared-converter")
+		}
+		if w.X != nil {
+			res.Label("extra-options")
+			if c.codeLang() != "" {
+				res.Label("extra:code-lang")
+			}
+		}
+		if w.Names != "" {
+			res.Label("names:" + w.Names)
+		}
+		if w.Sink == "batch" {
+			n := len(w.Batch) + 1
+			if n >= 10 {
+				res.Label("batch:inputs>=10")
+			}
+			for _, k := range w.Batch {
+				if k <= 0 {
+					res.Label("batch:bad-input")
+				}
+			}
+		}
+		sig = fmt.Sprintf("|%s,%s,%v,%s,%v,%d", w.Sink, w.Src, w.Shared, w.RT, w.Conv, len(w.Batch))
+		if w.Src == "foreign" {
+			f := w.F
+			nsect := 0
+			for _, b := range c.Blocks {
+				if b.Sect {
+					nsect++
+				}
+				if b.MarkFmt != 0 {
+					res.Label("foreign:paragraph-mark-format")
+				}
+				if b.NoNum {
+					res.Label("foreign:numId-0")
+				}
+				if b.Off != 0 {
+					res.Label("foreign:off-toggle")
+				}
+				if b.Split > 0 {
+					res.Label("foreign:split-run")
+				}
+				for _, r := range b.Runs {
+					if r.Off != 0 {
+						res.Label("foreign:off-toggle")
+					}
+					if r.Split > 0 {
+						res.Label("foreign:split-run")
+					}
+				}
+			}
+			if nsect > 0 {
+				res.Label("foreign:sections>=2")
+				if sectionBreakBeforeLaterBlocks(c) {
+					res.Label("foreign:section-break-before-2-blocks")
+				}
+			}
+			if nsect > 1 {
+				res.Label("foreign:sections>=3")
+			}
+			if f.Prefix != "" && f.Prefix != "w" {
+				res.Label("foreign:other-prefix")
+			}
+			if f.On != "" {
+				res.Label("foreign:on-with-value")
+			}
+			for _, kv := range []struct {
+				k string
+				v bool
+			}{{"no-body-sectPr", f.NoBodySec}, {"no-styles", f.NoStyles}, {"dir-entries", f.DirEnt}, {"empty-part", f.EmptyPart},
+				{"absolute-target", f.AbsTarget}, {"bare-table", f.BareTable}, {"tblHeader", f.TblHeader}, {"rsid", f.Rsid}, {"stored", f.Stored}, {"table-without-rows", f.EmptyTbl}} {
+				if kv.v {
+					res.Label("foreign:" + kv.k)
+				}
+			}
+			sig += fmt.Sprintf(",%d,%s,%s", nsect, f.Prefix, f.On)
+		}
+	}
+	for _, h := range c.Hist {
+		if h.K == "otherdoc" {
+			res.Label("two-documents-alternately")
+		}
+	}
+	// sizes and value classes (from the content, whatever the entry point)
+	maxRuns, maxCols, maxRows, maxText := 0, 0, 0, 0
+	texts := func(f func(string)) {
+		for _, b := range c.Blocks {
+			f(b.T)
+			for _, r := range b.Runs {
+				f(r.T)
+			}
+			for _, row := range b.Cells {
+				for _, cell := range row {
+					f(cell)
+				}
+			}
+		}
+	}
+	for _, b := range c.Blocks {
+		if len(b.Runs) > maxRuns {
+			maxRuns = len(b.Runs)
+		}
+		if len(b.Cells) > maxRows {
+			maxRows = len(b.Cells)
+		}
+		if len(b.Cells) > 0 && len(b.Cells[0]) > maxCols {
+			maxCols = len(b.Cells[0])
+		}
+		if b.K == "empty" && b.Brk {
+			res.Label("kind:page-break")
+		}
+		if b.K != "p" && b.K != "table" && b.K != "empty" && blank(b.T) {
+			res.Label("blank-text:" + b.K)
+		}
+	}
+	nl, astral, oddBlank := false, false, false
+	texts(func(s string) {
+		if len(s) > maxText {
+			maxText = len(s)
+		}
+		for _, r := range s {
+			switch {
+			case r == '\n' || r == '\r':
+				nl = true
+			case r > 0xFFFF:
+				astral = true
+			case r == 0x85 || r == 0x2028 || r == 0x2029 || r == 0x202F || r == 0x205F:
+				oddBlank = true
+			}
+		}
+	})
+	if nl {
+		res.Label("text:newline")
+	}
+	if astral {
+		res.Label("text:astral")
+	}
+	if oddBlank {
+		res.Label("text:blank-outside-Zs")
+	}
+	big := ""
+	for _, x := range []struct {
+		l string
+		v bool
+	}{{"runs>5", maxRuns > 5}, {"runs>16", maxRuns > 16}, {"runs>64", maxRuns > 64}, {"cols>5", maxCols > 5}, {"cols>9", maxCols > 9}, {"rows>5", maxRows > 5}, {"rows>9", maxRows > 9},
+		{"rows>64", maxRows > 64}, {"blocks>16", len(c.Blocks) > 16}, {"blocks>64", len(c.Blocks) > 64}, {"text>1KiB", maxText > 1024}, {"text>64KiB", maxText > 65536}} {
+		if x.v {
+			res.Label("big:" + x.l)
+			big += "," + x.l
+		}
+	}
+	if big != "" {
+		res.Label("big:any")
+	}
+	if o := c.O; o.MaxLen <= 0 || o.MaxLen > 80 || (o.MaxLen != 1 && o.MaxLen != 10 && o.MaxLen != 20 && o.MaxLen != 40 && o.MaxLen != 80) {
+		res.Label("opt:maxlen-other")
+		if o.MaxLen <= 0 {
+			res.Label("opt:maxlen<=0")
+		}
+	}
+	return sig + big
+}
+
+// sectionBreakBeforeLaterBlocks: a paragraph that ends a section is followed by at least two more body blocks.
+func sectionBreakBeforeLaterBlocks(c Case) bool {
+	for i, b := range c.Blocks {
+		if b.Sect && len(c.Blocks)-i-1 >= 2 {
+			return true
+		}
+	}
+	return false
 }
 
 func hasUnicodeEdgeBlank(c Case) bool {
@@ -903,9 +1324,10 @@ func tableBetweenParagraphs(c Case) bool {
 }
 
 func TestC20(t *testing.T) {
+	defer removeProcScratch()
 	kit.Main(t, kit.Spec[Case]{
 		ID: "C20", Level: "exploration",
-		Rule: "document of 1-10 (thorough 1-16) blocks drawn from headings 1-9, paragraphs of 1-5 runs (bold/italic/strike/code-font combinations), bullet and numbered list items, Quote and CodeBlock paragraphs, 1-5 x 1-5 tables (bold or plain first row, empty cells) and empty paragraphs, in any interleaving (a list item directly before a table in a quarter of the cases), under every combination of export options (GFM/simple tables, setext, three bullet markers, two emphasis markers, wrapping at 1..80, metadata); the options reach the exporter as the caller's own struct (~78 %) or through DefaultExportOptions(), NewExporter(nil)+nil options, HighQualityExportOptions(); in half of the cases 1-2 other exports (HighQualityExportOptions, a customised copy-by-pointer of what DefaultExportOptions returned, another struct, nil options) run between the judged exports; modes clean (~31 %: safe alphabet, single formats), benign (~21 %: plus lists, code blocks, empty paragraphs, plain table headers, multi-format and code+emphasis runs, Heading7-9, ASCII and Unicode blanks at the edges of formatted runs and headings, formatted runs touching each other or a plain neighbour, wrapped formatted text), hostile (~40 %: the benign shapes with text from 25 classes of Markdown syntax - emphasis/tilde/backtick/backslash runs, brackets and links, angle brackets and HTML, entities, dollar, pipes, '!' , leading '#' '-' '+' '*' '=' '>' ':' and ordered markers, table-like and fence-like lines, task boxes, autolinks with and without syntax characters, punctuation at word edges - on their own, glued before/after/inside a word, in headings, items, quotes, cells (pipes more often), plain, formatted and code-font runs (backtick strings), CodeBlock paragraphs (fence-like lines, backtick runs)) and wild (~8 %: simple tables or metadata, half of them with hostile text); non-trivial = a table between two text blocks, >= 2 formatted runs and >= 3 block kinds; distinct = distinct sequence of (block kind, heading level, run format masks, table size) + options + finding classes the case is in",
+		Rule: "document of 1-10 (thorough 1-16) blocks drawn from headings 1-9, paragraphs of 1-5 runs (bold/italic/strike/code-font combinations), bullet and numbered list items, Quote and CodeBlock paragraphs, 1-5 x 1-5 tables (bold or plain first row, empty cells) and empty paragraphs, in any interleaving (a list item directly before a table in a quarter of the cases), under every combination of export options (GFM/simple tables, setext, three bullet markers, two emphasis markers, wrapping at 1..80, metadata); the options reach the exporter as the caller's own struct (~78 %) or through DefaultExportOptions(), NewExporter(nil)+nil options, HighQualityExportOptions(); in half of the cases 1-2 other exports (HighQualityExportOptions, a customised copy-by-pointer of what DefaultExportOptions returned, another struct, nil options) run between the judged exports; modes clean (~31 %: safe alphabet, single formats), benign (~21 %: plus lists, code blocks, empty paragraphs, plain table headers, multi-format and code+emphasis runs, Heading7-9, ASCII and Unicode blanks at the edges of formatted runs and headings, formatted runs touching each other or a plain neighbour, wrapped formatted text), hostile (~40 %: the benign shapes with text from 25 classes of Markdown syntax - emphasis/tilde/backtick/backslash runs, brackets and links, angle brackets and HTML, entities, dollar, pipes, '!' , leading '#' '-' '+' '*' '=' '>' ':' and ordered markers, table-like and fence-like lines, task boxes, autolinks with and without syntax characters, punctuation at word edges - on their own, glued before/after/inside a word, in headings, items, quotes, cells (pipes more often), plain, formatted and code-font runs (backtick strings), CodeBlock paragraphs (fence-like lines, backtick runs)) and wild (~8 %: simple tables or metadata, half of them with hostile text); widened (about a fifth of the cases leave the path 'document in memory, ExportToString, ConvertString'): the export is made through ExportToBytes, ExportToFile, BatchExport (1-4 inputs, rarely 10-12, cuts of the document, rarely a file that is no document among them) or BidirectionalConverter.AutoConvert, under file names with upper-case extension, several dots, non-ASCII characters or blanks; the document is built in memory, saved by the library and opened again, or written by an independent writer the way other producers do (several sections, on/off properties with explicit values true/1/on and false/0/off, paragraph mark formatting, numId 0, runs split into several w:r / w:t with rsid attributes, proofErr and bookmarks in between, tables without tblPr/tblGrid or with tblHeader, another namespace prefix, no styles part, directory entries, an empty part, stored entries, absolute targets); one Exporter and one options struct serve every judged export of a case (asked twice in a row, and again after the history), the options are given to NewExporter (nil per call), passed over a constructor holding others, or written as a struct literal; a second document goes through the judged exporter (into the same .md file) in between, a file that does not exist is exported, option fields that cannot concern the document are flipped, DefaultCodeLang set; the way back is ConvertString, ConvertBytes (the buffer overwritten afterwards), ConvertFile or AutoConvert, optionally on a Converter that converts an unrelated text before and after; sizes past the usual ones with a small probability (6-70 runs, 6-33 columns, 6-65 rows, 17-65 blocks, texts of 2-9 KiB and > 64 KiB, words of 300 characters, MaxLineLength 0, -1, 2, 3, 9, 11, 79, 81, 1000, 65536); value classes: line feeds, CR LF, tabs and blanks outside Zs (U+0085, U+2028, U+2029, U+202F, U+205F) at run edges and between words, letters outside the BMP, combining marks, symbols at word edges, words that are prefixes of one another or differ in case, headings / items / quotes / code paragraphs / runs without visible text, page break paragraphs, the bullet and front matter the library itself writes; non-trivial = a table between two text blocks, >= 2 formatted runs and >= 3 block kinds; distinct = distinct sequence of (block kind, heading level, run format masks, table size) + options + finding classes the case is in",
 		Gen:  genCase, Run: run, Findings: findings, Fixed: fixedCases,
 		Assumptions: []string{
 			"goldmark v1.7.8 with extension.GFM is the reference reading of the exported Markdown (CommonMark 0.31 + GFM tables/strikethrough/autolinks); backslash escapes and entities are resolved as a renderer would, autolink labels count as text",
@@ -916,6 +1338,10 @@ func TestC20(t *testing.T) {
 			"text containing Markdown syntax is judged like any other text (E1-E5 exact): the reference reading resolves backslash escapes and character references, so any correct way of escaping passes; class masks remain only for delimiter placement (KF-C20-delimiter-context: flanking, fused delimiter runs, '~~' after a tilde, delimiters inside an autolink word - decided by a model of the documented run merging, validated by exhaustive enumeration) and for line breaks inside code spans (KF-C20-wrap-code-span)",
 			"C20.E2r (letters and digits of the raw Markdown = letters and digits of the body text, in order) is judged on every case without any mask",
 			"C20.E6 (stability): the document exported again with the same requested options, obtained the same way, after the other exports of the case's history, is byte-identical to the first export; no mask. For options taken from the library's constructors the requested values are the documented ones (defaults; HighQuality = defaults + metadata)",
+			"every entry point is judged by the same clauses on the text it produces (E1-E3 on the file's content for ExportToFile / BatchExport / AutoConvert, on every output of a batch; E4/E5 over ConvertString, ConvertBytes, ConvertFile + Open, AutoConvert; E6 on the second output). The output of input <dir>/<base>.docx of a batch is looked for as <outputDir>/<base>.md (the name the README examples show); a batch holding a file that is no document is judged only when BatchExport returns nil (IgnoreErrors set in the options passed to the call)",
+			"a document written by another producer is the same sequence of blocks, texts and run formats as the case: spellings do not change the expectation (an explicit 'off' value is 'not formatted', paragraph mark formatting formats no text, numId 0 is no list item, section breaks are no content)",
+			"C20.E6 also demands that a byte slice returned by ExportToBytes is unchanged at the end of the case, and that one Exporter asked twice in a row gives the same bytes",
+			"a carriage return without a line feed is no line end (goldmark, the reference reader and the library's parser, reads it so); whitespace of any kind is compared as a blank",
 			"a simple (non-GFM) table is judged against the reference reading of exactly the lines the open finding describes (cell texts written with a backslash before every ASCII punctuation character, which reads the same as any other correct escaping), standing as a block of their own: absorbed into a neighbour, missing rows or a wrong position stay violations; its fixpoint clause compares the two exports without backslash escapes, '*', '_' and line breaks",
 		},
 		MustSee: map[string]float64{"fully-judged": 0.8, "unmasked": 0.38, "fully-judged:table-between-paragraphs": 0.12, "fully-judged:formatted-runs>=2": 0.25,
@@ -928,6 +1354,9 @@ func TestC20(t *testing.T) {
 			"fully-judged:hostile:in:plain-run": 0.09, "fully-judged:hostile:in:formatted-run": 0.06, "fully-judged:hostile:in:code-run": 0.025,
 			"fully-judged:hostile:in:code-block": 0.1, "fully-judged:hostile:fence-in-code-block": 0.04, "fully-judged:hostile:backtick-in-code-run": 0.01,
 			"fully-judged:hostile:pipe-in-cell": 0.07, "fully-judged:hostile:run-edge": 0.045, "hostile:leading-marker:h": 0.012, "hostile:leading-marker:li": 0.012, "hostile:leading-marker:p": 0.012,
+			"wide:any": 0.1, "sink:bytes": 0.03, "sink:file": 0.002, "src:foreign": 0.015, "document-read-from-package": 0.02, "foreign:sections>=2": 0.004, "foreign:section-break-before-2-blocks": 0.003,
+			"foreign:split-run": 0.004, "foreign:on-with-value": 0.004, "shared-exporter": 0.04, "two-documents-alternately": 0.02, "roundtrip:bytes": 0.02, "extra-options": 0.02,
+			"big:any": 0.006, "text:newline": 0.015, "text:astral": 0.2, "opt:maxlen-other": 0.03, "blank-text:h": 0.004,
 			"edge-blank:unicode": 0.02, "hist:any": 0.3, "hist:mutdefault": 0.15, "hist:hq": 0.08, "via:default": 0.04, "via:nilexp": 0.03, "via:hq": 0.03, "simple-table-after-item": 0.01},
 	})
 }
